@@ -871,17 +871,35 @@ def HW (r : RotCfg) (s : St) : Prop :=
   r.naming = .numbersDirect → ∀ act, s.act = some act →
     s.dir.get ⟨some (.num (act.idx + 1)), false⟩ = none
 
+theorem get_append_none (d : Dir) (n m : FName) (b : List Nat) (h : d.get m = none) :
+    (d.append n b).get m = none := by
+  unfold Dir.append
+  cases hg : d.get n with
+  | none => exact h
+  | some f0 =>
+    have hne : m ≠ n := by
+      intro heq; rw [heq, hg] at h; cases h
+    simp only []
+    rw [FV.FlwA.get_set_ne d n m _ hne]; exact h
+
+/-- the three outcomes of `mountNext` (no faults, no cleanup): nothing, or the `BufWriter` is
+    flushed and the writer moves on to the next file -/
 theorem mountNext_cases (s : St) (act : Active) (r : RotCfg) (force : Bool) (now : Nat)
     (hB : r.naming = .numbersDirect ∨ r.naming = .timestampsDirect) (hc : r.cleanup = none) :
     mountNext s act r force now noFaults = (s, act, false) ∨
     (r.naming = .numbersDirect ∧ mountNext s act r force now noFaults =
-      rotTail s { act with idx := act.idx + 1 } (.num (act.idx + 1)) now) ∨
+      rotTail (flushAct s act).1 { (flushAct s act).2 with idx := act.idx + 1 }
+        (.num (act.idx + 1)) now) ∨
     (r.naming = .timestampsDirect ∧ mountNext s act r force now noFaults =
-      rotTail s { act with stamp := now } (collisionFree s.dir now) now) := by
+      rotTail (flushAct s act).1 { (flushAct s act).2 with stamp := now }
+        (collisionFree (flushAct s act).1.dir now) now) := by
   by_cases h : (force || rotationNecessary r act now) = true
-  · rcases hB with hnm | hnm
-    · exact Or.inr (Or.inl ⟨hnm, mountNext_nD s act r force now hnm hc h⟩)
-    · exact Or.inr (Or.inr ⟨hnm, mountNext_tD s act r force now hnm hc h⟩)
+  · rw [mountNext_due s act r force now noFaults h]
+    rcases hB with hnm | hnm
+    · exact Or.inr (Or.inl ⟨hnm,
+        mountNextCore_nD (flushAct s act).1 (flushAct s act).2 r true now hnm hc rfl⟩)
+    · exact Or.inr (Or.inr ⟨hnm,
+        mountNextCore_tD (flushAct s act).1 (flushAct s act).2 r true now hnm hc rfl⟩)
   · exact Or.inl (mountNext_skip s act r force now noFaults (by simpa using h))
 
 theorem mountNext_ext (s : St) (act : Active) (r : RotCfg) (force : Bool) (now : Nat)
@@ -892,8 +910,12 @@ theorem mountNext_ext (s : St) (act : Active) (r : RotCfg) (force : Bool) (now :
     DirExt s.dir (mountNext s act r force now noFaults).1.dir := by
   rcases mountNext_cases s act r force now hB hc with h | ⟨hnm, h⟩ | ⟨hnm, h⟩
   · rw [h]; exact ⟨rfl, rfl, DirExt.refl _⟩
-  · rw [h]; exact ⟨rfl, openFile_cfg _ _ _ _ _, rotTail_ext s _ _ now (hw hnm)⟩
-  · rw [h]; exact ⟨rfl, openFile_cfg _ _ _ _ _, rotTail_ext s _ _ now (collisionFree_get _ _)⟩
+  · rw [h]
+    exact ⟨rfl, openFile_cfg _ _ _ _ _, (flushAct_ext s act).trans
+      (rotTail_ext _ _ _ now (get_append_none _ _ _ _ (hw hnm)))⟩
+  · rw [h]
+    exact ⟨rfl, openFile_cfg _ _ _ _ _, (flushAct_ext s act).trans
+      (rotTail_ext _ _ _ now (collisionFree_get _ _))⟩
 
 theorem writeRaw_cfg (s : St) (a : Active) (b : List Nat) : (writeRaw s a b).1.cfg = s.cfg := by
   unfold writeRaw
